@@ -878,6 +878,24 @@ def m_checked_sub(I, st, call):
     return out
 
 
+@model("core::num::<impl usize>::checked_div", "core::num::<impl u16>::checked_div",
+       "core::num::<impl u32>::checked_div", "core::num::<impl u64>::checked_div", "core::num::<impl u8>::checked_div")
+def m_checked_div(I, st, call):
+    a, b = call.args
+    if not (isinstance(a, IntV) and isinstance(b, IntV)):
+        return None
+    out = []
+    s0 = st.copy()
+    s0.add_eq(b.aff, Aff.const(0))
+    if not s0.dead:
+        out.append((s0, mk_none(call.dest_ty)))
+    st.add_fact(b.aff - 1)
+    if not st.dead:
+        q = I.binop(call.ctx, st, "Div", a, b, ("int", (a.ty or (64, False))[0], False), call.site)
+        out.append((st, mk_option(I, q, call.dest_ty)))
+    return out
+
+
 @model("core::num::<impl usize>::checked_add", "core::num::<impl u16>::checked_add",
        "core::num::<impl u32>::checked_add", "core::num::<impl u8>::checked_add",
        "core::num::<impl u64>::checked_add")
